@@ -18,7 +18,7 @@ Section Resolve.
   Hypothesis Hpa : g_partial o = false.
   Hypothesis Hwi : g_wild o = false.
 
-  Notation GR := (get_rec env ko o).
+  Notation GR := (get_rec env fo ko o).
 
   (* the leaf item (p, v), seen from the node at par, is found at that node *)
   Definition found (need : dpath -> nat) (s : schema) (t : tree) (par : dpath) (it : litem) : Prop :=
@@ -117,7 +117,7 @@ Section Resolve.
         rewrite Ek in HF. inversion HF as [|k0 v0 ks0 vs (pk & Es & Fs) HF' E1 E2].
         inversion HF' as [E3 E4|]. rewrite <- E4 in E2. symmetry in E2.
         unfold ss. rewrite Ek at 1.
-        rewrite (get_rec_list_single env ko o Hpa Hwi f k mn mx esfs es el q trav pk Fs).
+        rewrite (get_rec_list_single env fo ko o Hpa Hwi f k mn mx esfs es el q trav pk Fs).
         rewrite <- Ek. fold ss. rewrite Hes.
         assert (Hk : In k keys) by (rewrite Ek; now left).
         assert (Hty : exists fi t d, key_name_field esfs k = Ok (fi, SLeaf t d) /\ key_wfb env fo ko t v0 = true).
@@ -125,7 +125,7 @@ Section Resolve.
           destruct (key_name_field esfs k) as [[fi [t d| | | |]]| |]; try discriminate.
           apply andb_true_iff in Hw as [Hw _]. eauto. }
         destruct Hty as (fi & t & d & Ekn & Hwv0).
-        rewrite (first_g_hit env ko o f ss esfs el q trav k pk done mk (TCont efs) more); [exact Hrec| |].
+        rewrite (first_g_hit env fo ko o f ss esfs el q trav k pk done mk (TCont efs) more); [exact Hrec| |].
         * intros mk' e' Hin'.
           assert (Hin2 : In (mk', e') es) by (rewrite Hes; apply in_or_app; now left).
           destruct (Hent mk' e' Hin2) as (efs' & -> & Hkw' & Hkl').
@@ -139,9 +139,9 @@ Section Resolve.
           eapply key_to_string_inj; eauto.
         * pose proof Hkl as Hkl2. rewrite Ek, E2 in Hkl2. inversion Hkl2 as [|? ? ? ? Hg _].
           rewrite (single_key_str_leaf env ko keys mn mx esfs Hsch k _ (fields_of (TCont efs)) v0 Hk Hg). exact Es.
-      + unfold ss. rewrite Ek at 1. rewrite (get_rec_list_multi env ko o Hpa Hwi).
+      + unfold ss. rewrite Ek at 1. rewrite (get_rec_list_multi env fo ko o Hpa Hwi).
         rewrite <- Ek. fold ss. rewrite Hes.
-        rewrite (all_g_hit env ko o f ss esfs keys el q trav done mk (TCont efs) more kk).
+        rewrite (all_g_hit env fo ko o f ss esfs keys el q trav done mk (TCont efs) more kk).
         * cbn [ename ekeys el]. fold el. rewrite Hrec. cbn [bind app]. reflexivity.
         * intros mk' e' Hin'. apply (Hother mk' e'); [rewrite Hes; apply in_or_app; now left | eapply Hdistinct; eauto].
         * intros mk' e' Hin'. apply (Hother mk' e'); [rewrite Hes; apply in_or_app; right; now right | eapply Hdistinct; eauto].
@@ -193,7 +193,7 @@ Section Resolve.
             destruct (path_of_names alt) as [|e0 prest] eqn:Ep.
             { destruct alt; [congruence | discriminate]. }
             destruct fuel as [|[|f]]; try (cbn [length] in Hfuel; lia).
-            rewrite (get_rec_struct env ko o Hsh (S f) s sfs fs fi ss alt e0 prest trav Hs Hok Hfi Halt)
+            rewrite (get_rec_struct env fo ko o Hsh (S f) s sfs fs fi ss alt e0 prest trav Hs Hok Hfi Halt)
               by (rewrite <- Ep, pnames_of_names; apply is_prefixb_refl).
             assert (Ec : consumed ss alt = length (e0 :: prest)).
             { unfold consumed. destruct ss; try discriminate; cbn [is_keyed_list]; now rewrite Hlen. }
@@ -225,7 +225,7 @@ Section Resolve.
             destruct (path_of_names a0 ++ q) as [|e0 prest] eqn:Ep.
             { destruct a0; [congruence | discriminate]. }
             destruct fuel as [|f]; [lia|].
-            rewrite (get_rec_struct env ko o Hsh f s sfs fs fi (SCont csfs) a0 e0 prest trav Hs Hok Hfi Ha0)
+            rewrite (get_rec_struct env fo ko o Hsh f s sfs fs fi (SCont csfs) a0 e0 prest trav Hs Hok Hfi Ha0)
               by (rewrite <- Ep, pnames_app, pnames_of_names; apply is_prefixb_app).
             unfold consumed. cbn [is_keyed_list]. rewrite <- Ep, <- Hlen, skipn_app_exact, firstn_app, firstn_all, Nat.sub_diag.
             cbn [firstn]. rewrite app_nil_r, Hgo, Hget, Hfound by (unfold need_struct; destruct a0; [congruence | cbn [length] in *; lia]).
@@ -266,7 +266,7 @@ Section Resolve.
             destruct (path_of_names (removelast a0) ++ el :: q') as [|e0 prest] eqn:Ep.
             { destruct (path_of_names (removelast a0)); discriminate. }
             destruct fuel as [|f]; [lia|].
-            rewrite (get_rec_struct env ko o Hsh f s sfs fs fi (SList false keys mn mx esfs) a0 e0 prest trav Hs Hok Hfi Ha0).
+            rewrite (get_rec_struct env fo ko o Hsh f s sfs fs fi (SList false keys mn mx esfs) a0 e0 prest trav Hs Hok Hfi Ha0).
             * unfold consumed. cbn [is_keyed_list]. rewrite <- Ep, <- Hlen, skipn_app_exact, firstn_app, firstn_all, Nat.sub_diag.
               cbn [firstn]. rewrite app_nil_r, Hgo, Hget, Hfound by (unfold need_list; cbn [length] in *; lia).
               now rewrite <- app_assoc.
@@ -285,7 +285,7 @@ Section Resolve.
   Theorem leaf_paths_resolve : forall S t pfx l p v,
     gn_treeb env fo ko S t = true ->
     leaves env ko false S t pfx = Ok l -> In (p, v) l ->
-    get_node env ko o S t (skipn (length pfx) p) =
+    get_node env fo ko o S t (skipn (length pfx) p) =
       Ok [{| gn_path := skipn (length pfx) p; gn_data := Some (lval_tree v) |}].
   Proof.
     intros S t pfx l p v Hg Hl Hin. unfold gn_treeb in Hg.
